@@ -418,6 +418,15 @@ func (m *refModel) expand(s string) string {
 			switch strings.ToLower(key) {
 			case "id":
 				return strconv.Itoa(m.curTop.ID)
+			case "msg":
+				// the message of the rule being evaluated (the generators use it with literal messages only); a rule
+				// without one has none
+				for _, a := range m.curRule.Acts {
+					if n, v, _ := strings.Cut(a, ":"); strings.EqualFold(n, "msg") {
+						return unquoteAct(v)
+					}
+				}
+				return ""
 			}
 		case "REQUEST_METHOD":
 			return m.req.Method
@@ -425,6 +434,9 @@ func (m *refModel) expand(s string) string {
 		panic("refModel: unmodelled macro " + tok)
 	})
 }
+
+// what an undefined %{tx.key} / %{TX.key} expands to: its own text
+var reUndefinedTX = regexp.MustCompile(`^(?i:tx)\.nosuch[0-9]*$`)
 
 func unquoteAct(v string) string {
 	if len(v) >= 2 && v[0] == '\'' && v[len(v)-1] == '\'' {
@@ -466,6 +478,10 @@ func (m *refModel) setvar(spec string) {
 	case val == "":
 		m.tx.set(key, "")
 	case val[0] == '+' || val[0] == '-':
+		if reUndefinedTX.MatchString(val[1:]) {
+			// the operand named a TX variable that does not exist: nothing to add, the counter keeps its value
+			return
+		}
 		n, err := strconv.Atoi(val[1:])
 		if err != nil {
 			panic("refModel: non-numeric setvar operand " + val)
